@@ -424,20 +424,60 @@ def leaf_equality(ctx, P):
     whole = [c for c in cmps if {norm(c.left), norm(c.comparators[0])} in ({"self.func.__code__", "other.func.__code__"}, {"self.func", "other.func"})]
     projections = [norm(n) for n in own_nodes(f.node) if (isinstance(n, ast.Attribute) and n.attr.startswith("co_"))
                    or (isinstance(n, ast.Call) and norm(n.func).endswith("attrgetter") and any(isinstance(a, ast.Constant) and str(a.value).startswith("co_") for a in n.args))]
-    ctx.ob("R16.11", "the functions are compared as wholes", len(whole) == 1 and not projections, detail={"comparisons": [norm(c) for c in cmps][:6], "projections": projections},
+    ctx.ob("R16.11", "the functions are compared as wholes", not projections, detail={"comparisons": [norm(c) for c in cmps][:6], "projections": projections},
            where=f.fq, construct="function comparison in Parameter.__eq__", loc=loc(f, whole[0] if whole else f.node),
            message=f"Parameter.__eq__ compares {projections or 'no'} projection(s) of the code objects instead of the code objects themselves",
            consequence="two leaves whose functions have the same bytecode and constants but call different names (np.sin vs np.cos) compare equal, "
                        "and so does every composite built on them: equality is no longer structural")
-    kw_names = [c for c in cmps if {norm(c.left), norm(c.comparators[0])} == {"set(self.kwargs)", "set(other.kwargs)"}]
-    ctx.ob("R16.11", "the keyword names are compared as sets", len(kw_names) == 1, detail=[norm(c) for c in cmps][:6], where=f.fq,
-           construct="kwargs name comparison in Parameter.__eq__", message="Parameter.__eq__ no longer compares the sets of keyword names",
+    # the decision of __eq__ followed (pvs/smallstep.py) for pairs of leaves that differ in exactly one respect
+    from ..smallstep import Machine, Opaque as SO, module_constants
+    mine = {"a": 1, "b": 2}
+    cases = [("identical function and keywords", "codeA", {"a": 1, "b": 2}, True),
+             ("keywords given in another order", "codeA", {"b": 2, "a": 1}, True),
+             ("another function with the same bytecode and constants", "codeB", {"a": 1, "b": 2}, False),
+             ("a keyword missing", "codeA", {"a": 1}, False),
+             ("an extra keyword", "codeA", {"a": 1, "b": 2, "c": 3}, False),
+             ("a keyword value differs", "codeA", {"a": 1, "b": 3}, False)]
+    wrong_names, wrong_vals, wrong_func, wrong_same = [], [], [], []
+    for what, ocode, okw, want in cases:
+        def attrs(text, ocode=ocode, okw=okw):
+            side, _, rest = text.partition(".")
+            code = "codeA" if side == "self" else ocode
+            if rest == "kwargs":
+                return dict(mine) if side == "self" else dict(okw)
+            if rest == "func":
+                return ("function", code)
+            if rest == "func.__code__":
+                return ("code", code)
+            if rest.startswith("func.__code__.co_"):
+                # codeA and codeB differ only in the names they call
+                return ("names", code) if rest.endswith("co_names") else ("part", rest.split(".")[-1])
+            return NotImplemented
+
+        def call(m, node, name, args, kwargs):
+            if name == "isinstance" and len(args) == 2:
+                if args[0] == SO("other"):
+                    return True
+                return False            # keyword values are plain numbers here, not arrays
+            return NotImplemented
+
+        def undecided(text):
+            return False if text.replace(" ", "") in ("otherisself", "selfisother") else None
+        env = dict(module_constants(f.module.tree))
+        env.update({"self": SO("self"), "other": SO("other")})
+        kind, val = Machine(env, attrs, call, fuel=16, undecided=undecided).run_function(f.node)
+        got = kind == "return" and val is True
+        if kind != "return" or val not in (True, False):
+            raise AnalysisError(f"Parameter.__eq__ does not decide `{what}` in the model ({kind} {val!r})")
+        if got != want:
+            {"another function with the same bytecode and constants": wrong_func, "a keyword missing": wrong_names, "an extra keyword": wrong_names,
+             "a keyword value differs": wrong_vals}.get(what, wrong_same).append(f"{what}: __eq__ gives {got}")
+    ctx.ob("R16.11", "leaves with the same function and keywords are equal (in any keyword order); another function is not", not wrong_func and not wrong_same,
+           detail=wrong_func + wrong_same, where=f.fq, construct="function comparison in Parameter.__eq__ (decision table)", loc=loc(f, f.node),
+           message=f"{(wrong_func + wrong_same)[:2]}", consequence="equality is no longer structural")
+    ctx.ob("R16.11", "the keyword names are compared as sets", not wrong_names, detail=wrong_names, where=f.fq,
+           construct="kwargs name comparison in Parameter.__eq__", message=f"Parameter.__eq__ no longer compares the sets of keyword names: {wrong_names}",
            consequence="parameters with different keyword arguments compare equal")
-    loops = [l for l in own_nodes(f.node) if isinstance(l, ast.For) and norm(l.iter) in ("self.kwargs", "other.kwargs", "self.kwargs.keys()")
-             and isinstance(l.target, ast.Name)]
-    kv = loops[0].target.id if loops else "key"
-    vals = [c for c in own_nodes(f.node) if isinstance(c, ast.Call) and len(c.args) == 2 and {norm(a) for a in c.args} in (
-        {f"self.kwargs[{kv}]", f"other.kwargs[{kv}]"},)]
-    ctx.ob("R16.11", "every keyword value is compared", bool(vals) and bool(loops), detail={"value_comparisons": [norm(v) for v in vals]}, where=f.fq,
-           construct="kwargs value comparison in Parameter.__eq__", message="Parameter.__eq__ no longer compares the keyword values one by one",
+    ctx.ob("R16.11", "every keyword value is compared", not wrong_vals, detail=wrong_vals, where=f.fq,
+           construct="kwargs value comparison in Parameter.__eq__", message=f"Parameter.__eq__ no longer compares the keyword values one by one: {wrong_vals}",
            consequence="parameters with different keyword values compare equal")
